@@ -105,17 +105,38 @@ func (p *printer) expr(e, parent ast.Expr) {
 func (p *printer) add(a ast.Add) {
 	p.expr(a.X, a)
 	p.Printf(" + ")
-	p.expr(a.Y, a)
+	// Addition parses left-associative, so a right-hand addition needs parens.
+	if _, ok := a.Y.(ast.Add); ok {
+		p.paren(a.Y)
+	} else {
+		p.expr(a.Y, a)
+	}
 }
 
 func (p *printer) double(d ast.Double) {
 	p.Printf("2*")
-	p.expr(d.X, d)
+	p.base(d.X)
 }
 
 func (p *printer) shift(s ast.Shift) {
-	p.expr(s.X, s)
+	p.base(s.X)
 	p.Printf(" << %d", s.S)
+}
+
+// base prints the operand of a double or shift. The grammar only allows an
+// operand or parenthesized expression there, so any operator needs parens.
+func (p *printer) base(e ast.Expr) {
+	if ast.IsOp(e) {
+		p.paren(e)
+	} else {
+		p.expr(e, nil)
+	}
+}
+
+func (p *printer) paren(e ast.Expr) {
+	p.Printf("(")
+	p.expr(e, nil)
+	p.Printf(")")
 }
 
 func (p *printer) identifier(name ast.Identifier) {
